@@ -579,9 +579,49 @@ func (ad *adversary) generate(T int) advPacket {
 			// a structured chunk whose declared length is a few bytes off its content: it ends inside the
 			// padding of its last element, inside the element, or a few stray bytes behind it
 			unpadded := func(typ uint16, val []byte) []byte { return wParamTLV(typ, val)[:4+len(val)] }
+			// the same for an element inside a chunk whose own length is consistent: the parameter's declared length
+			// is a few bytes off its content (odd, header-only, inside a fixed field), padded to the boundary
+			paramOff := func(typ uint16, val []byte, e int) []byte {
+				n := len(val) + e
+				if n < 0 {
+					n = 0
+				}
+				c := append([]byte{}, val...)
+				if e < 0 {
+					c = c[:n]
+				} else {
+					c = append(c, ad.randBytes(e)...)
+				}
+				out := append([]byte{byte(typ >> 8), byte(typ), byte((4 + n) >> 8), byte(4 + n)}, c...)
+				for len(out)%4 != 0 {
+					out = append(out, 0)
+				}
+				return out
+			}
 			var typ uint8
 			var v []byte
-			switch tp.intn(7) {
+			paramEdge := false
+			switch tp.intn(10) {
+			case 7, 8, 9:
+				paramEdge = true
+				e := pick(tp, -3, -2, -1, 1, 2, 3)
+				switch tp.intn(5) {
+				case 0, 1:
+					body := wU32(pick(tp, tCum, ad.u32()), pick(tp, tNext, ad.u32()), pick(tp, tCum, ad.u32()))
+					for j := tp.intn(4); j > 0; j-- {
+						body = append(body, 0, byte(tp.intn(12)))
+					}
+					typ, v = wtRECONFIG, paramOff(13, body, e)
+					if tp.intn(3) == 0 {
+						v = append(wParamTLV(13, body), paramOff(16, wU32(ad.u32(), uint32(tp.intn(8))), e)...)
+					}
+				case 2:
+					typ, v = wtRECONFIG, paramOff(uint16(pick(tp, 14, 15, 16, 17, 18)), ad.randBytes(4*(1+tp.intn(4))), e)
+				case 3:
+					typ, v = wtERROR, paramOff(uint16(1+tp.intn(13)), ad.randBytes(4*tp.intn(4)), e)
+				default:
+					typ, v = wtHEARTBEAT, paramOff(1, ad.randBytes(4*tp.intn(4)), e)
+				}
 			case 0, 1:
 				body := wU32(pick(tp, tCum, ad.u32()), pick(tp, tNext, ad.u32()), pick(tp, tCum, ad.u32()))
 				for j := 1 + 2*tp.intn(3); j > 0; j-- {
@@ -610,6 +650,9 @@ func (ad *adversary) generate(T int) advPacket {
 				}
 			}
 			d := pick(tp, -3, -2, -1, 1, 2, 3)
+			if paramEdge {
+				d = 0
+			}
 			n := len(v) + d
 			if n < 0 {
 				n = 0
